@@ -53,7 +53,8 @@ def run_case(ctx, iso3, options, title):
         f, b = used(lp)
         need = float(lp["consts"]["BILLION_KCALS_NEEDED"])
         for name, u, d, months in (("feed", f, fd, cp["DELAY"]["FEED_SHUTOFF_MONTHS"]), ("biofuel", b, bd, cp["DELAY"]["BIOFUEL_SHUTOFF_MONTHS"])):
-            over = u - d * (1 + 1e-4) - 1e-6
+            ctx.residual("use_over_demand_rel_" + name, float(np.max((u - d) / np.maximum(d, 1e-9) * (d > 1e-6))) if np.any(d > 1e-6) else 0.0)
+            over = u - d * (1 + 2e-6) - 1e-6      # largest excess seen on the unchanged tree: 3e-8 relative
             if np.any(over > 0):
                 m = int(np.argmax(over))
                 ctx.fail("%s-exceeds-demand-schedule" % name,
